@@ -294,7 +294,7 @@ pub fn history(cx: &mut Ctx, family: &str, maxops: u64) {
         let weights: &[(&str, u64)] = match family {
             "core" => &[("ins", 40), ("get", 14), ("rem", 14), ("clear", 1), ("reserve", 3), ("shrink", 3), ("extend", 2), ("iter", 2), ("drive", 3)],
             "iter" => &[("ins", 20), ("rem", 6), ("iter", 16), ("retain", 10), ("drainfilter", 12), ("drain", 5), ("intoiter", 3), ("clear", 1), ("drive", 4), ("new", 2)],
-            "entry" => &[("ins", 14), ("rem", 4), ("entry", 40), ("rawentry", 26), ("rawget", 6), ("drive", 4), ("retain", 2), ("shrink", 1)],
+            "entry" | "entryd6" => &[("ins", 14), ("rem", 4), ("entry", 40), ("rawentry", 26), ("rawget", 6), ("drive", 4), ("retain", 2), ("shrink", 1)],
             "clone" => &[("ins", 24), ("rem", 8), ("clone", 10), ("clonefrom", 14), ("eq", 10), ("new", 6), ("drive", 5), ("retain", 2), ("get", 4), ("drop", 2), ("clear", 1), ("reserve", 2)],
             "capacity" => &[("ins", 24), ("rem", 8), ("reserve", 14), ("tryreserve", 16), ("shrink", 14), ("retain", 4), ("drive", 5), ("new", 4), ("entry", 3), ("clear", 1), ("extend", 3)],
             "fuse" => &[("ins", 30), ("rem", 6), ("entry", 14), ("rawentry", 8), ("retain", 8), ("drainfilter", 8), ("reserve", 4), ("shrink", 2), ("clone", 5), ("clonefrom", 6), ("iter", 3), ("drive", 3), ("new", 2), ("get", 3)],
@@ -483,7 +483,7 @@ pub fn history(cx: &mut Ctx, family: &str, maxops: u64) {
             "entry" => {
                 let k = pick_key(cx, s, &h);
                 let present = cx.refs[s].as_ref().unwrap().contains_key(&k);
-                let steps = entry_chain(cx, present, false, false);
+                let steps = entry_chain(cx, present, false, family == "entryd6");
                 let f = fuse_for(cx, &h);
                 op_entry(cx, s, k, steps, f);
             }
